@@ -102,8 +102,10 @@ impl Add<Duration> for Time {
 
     fn add(self, rhs: Duration) -> Self::Output {
         if rhs.nanos().is_negative() {
+            // Time cannot be negative: stop at zero instead of overflowing (wire-derived
+            // corrections can exceed the timestamp they are applied to)
             Time {
-                inner: self.nanos() - rhs.nanos().unsigned_abs(),
+                inner: self.nanos().saturating_sub(rhs.nanos().unsigned_abs()),
             }
         } else {
             Time {
